@@ -27,6 +27,13 @@ func coreOptChoices() []optChoice {
 			return c
 		}
 	}
+	// numbers that differ by less than the precision, inside objects that are list elements
+	precNested := func() GenCfg {
+		c := DefaultCfg()
+		c.Nums = []float64{1, 1.04, 1.05, 2, 2.03, 3, 0.3, 0.31}
+		c.ScalarBias = 2
+		return c
+	}
 	deep := func() GenCfg { return DeepCfg() }
 	deepNoNull := func() GenCfg { c := DeepCfg(); c.AllowNull = false; return c }
 	return []optChoice{
@@ -43,6 +50,7 @@ func coreOptChoices() []optChoice {
 		{OptSetMrg, nonull, "SET+MERGE"},
 		{OptMsetMrg, nonull, "MULTISET+MERGE"},
 		{OptKeysMrg("id"), keyedNoNull("id"), "SetKeys(id)+MERGE"},
+		{OptPrec(0.1), precNested, "Precision(0.1)"},
 	}
 }
 
